@@ -195,9 +195,19 @@ func blanks(rng *rand.Rand, min int) string {
 	return string(b)
 }
 
+// fieldStr writes a field as any number congruent to it modulo the core size: v itself, v-M
+// (also for v = 0: "-8000"), further multiples below and above, kept inside the 32-bit range the
+// assembler accepts
 func fieldStr(rng *rand.Rand, v, m uint64, signed bool) string {
-	if signed && v != 0 && rng.Intn(2) == 0 {
-		return fmt.Sprintf("-%d", m-v)
+	if signed && rng.Intn(2) == 0 {
+		j := int64([]int{-1, -1, -1, -2, -3, 1, 2}[rng.Intn(7)])
+		x := int64(v) + j*int64(m)
+		if m < 1<<30 && x > -(1<<31) && x < 1<<31 {
+			return fmt.Sprintf("%d", x)
+		}
+		if v != 0 {
+			return fmt.Sprintf("-%d", m-v)
+		}
 	}
 	return fmt.Sprintf("%d", v)
 }
